@@ -1,4 +1,6 @@
 import GenlmModel.Proofs.Basic
+import GenlmModel.Model.Compose
+import GenlmModel.Proofs.Mask
 import Mathlib.Algebra.BigOperators.Group.List.Basic
 
 namespace Genlm
@@ -60,5 +62,16 @@ theorem tabStepFast_eq (G : CFG σ K) (keys : List (σ × List σ)) (t : Tab σ 
   apply List.map_congr_left
   intro r _
   rw [WbodyFast_eq]
+
+theorem composeShared_eq {ι : Type} [DecidableEq ι] [DecidableEq K] (G : CFG σ K) (T : FST ι σ K) :
+    composeShared G T = compose G T := by
+  have h : (fun r : Rule (CSym ι σ) K => r.body.all fun x => decide (x ∈ hlfpFast (itemClauses G T))) =
+      (fun r : Rule (CSym ι σ) K => r.body.all fun x => decide (x ∈ hlfp (itemClauses G T))) := by
+    funext r
+    congr 1
+    funext x
+    simp only [mem_hlfpFast]
+  simp only [composeShared, compose, composeItems, h]
+  rfl
 
 end Genlm
